@@ -64,7 +64,17 @@ StringsOK(c) ==
       [] c.pos = "gkey"  -> <<MsgM, <<<<122, 46>> \o c.in, V1>>>>                      \* z.<in>
       [] OTHER           -> <<MsgM, <<K1, c.in>>>>
 
+\* the time token gives back the record's own time (c.in = its RFC 3339 text, formatted by the harness)
+TimeOK(c) == LET toks == Tokenize(c.tail) IN
+  toks # BadLine /\ Len(toks) >= 1 /\ toks[1] = <<<<116, 105, 109, 101>>, c.in>>
+\* with source on: after dropping the source token (whatever file name it quotes) the rest is as without it
+SourceOK(c) == LET all == Tokenize(c.tail)
+                   toks == DropSource(all, TRUE) IN
+  all # toks /\ toks = (IF c.pos = "plain" THEN <<MsgM, <<K1, V1>>>>
+                        ELSE <<MsgM, <<<<119>>, <<49>>>>, <<<<103, 46>> \o K1, V1>>>>)
+
 JudgeOK == LET c == Cases[i] IN
-   (c.onewrite /\ c.head /\ CASE c.mode = "struct" -> StructOK(c) [] c.mode = "values" -> ValuesOK(c) [] OTHER -> StringsOK(c))
+   (c.onewrite /\ c.head /\ CASE c.mode = "struct" -> StructOK(c) [] c.mode = "values" -> ValuesOK(c) [] c.mode = "time" -> TimeOK(c)
+                               [] c.mode = "source" -> SourceOK(c) [] OTHER -> StringsOK(c))
    \/ PrintT(<<"BAD", i>>)
 =============================================================================
